@@ -7,7 +7,7 @@ git apply /verif/seeded/self/$N.diff || { echo "$N does not apply"; exit 1; }
 export GOFLAGS=-mod=mod GOPROXY=off GOSUMDB=off GOTOOLCHAIN=local
 go build ./... || { echo "$N does not build"; git checkout -- .; exit 1; }
 for c in "$@"; do
-  out=$(cd /verif && ./check $c 2>&1); rc=$?
+  out=$(cd /verif && VERIF_EVIDENCE_DIR=/tmp/try-seeded-evidence ./check $c 2>&1); rc=$?
   echo "$N vs $c: exit=$rc | $(echo "$out" | grep "^$c tier" | sed 's/.*cases=/cases=/' | cut -c1-90) | $(echo "$out" | grep -A1 '^VIOLATION' | grep signature | sort | uniq -c | tr '\n' ';' | cut -c1-200)"
 done
 git checkout -- . ; git status --short | head -2
